@@ -10,6 +10,10 @@ import Mathlib.Algebra.BigOperators.Field
 import Mathlib.Tactic.Ring
 import Mathlib.Tactic.Linarith
 import Mathlib.Tactic.FieldSimp
+import Mathlib.LinearAlgebra.Matrix.PosDef
+import Mathlib.LinearAlgebra.Matrix.Block
+import Mathlib.LinearAlgebra.Matrix.NonsingularInverse
+import Mathlib.Algebra.Order.Star.Real
 import EasyMl.Model.Decomp
 import EasyMl.Lemmas.RealModel
 
@@ -71,6 +75,18 @@ theorem forRange_none_iff {σ} (f : Nat → σ → Option σ) (n : Nat) (s : σ)
         · subst hkn; rw [hm] at h1; cases h1; exact h2
         · have : forRange n f s = none := ih.mpr ⟨k, by omega, t', h1, h2⟩
           rw [hm] at this; cases this
+
+/-- Progress rule for `forRange`: if every step from a state satisfying the invariant succeeds
+    and re-establishes it, the loop succeeds. -/
+theorem forRange_progress {σ} (P : Nat → σ → Prop) (f : Nat → σ → Option σ) (n : Nat) (s : σ)
+    (h0 : P 0 s) (hstep : ∀ k t, k < n → P k t → ∃ t', f k t = some t' ∧ P (k + 1) t') :
+    ∃ s', forRange n f s = some s' ∧ P n s' := by
+  induction n with
+  | zero => exact ⟨s, forRange_zero f s, h0⟩
+  | succ n ih =>
+    obtain ⟨t, ht, hP⟩ := ih (fun k t hk => hstep k t (by omega))
+    obtain ⟨t', ht', hP'⟩ := hstep n t (Nat.lt_succ_self n) hP
+    exact ⟨t', by rw [forRange_succ, ht]; exact ht', hP'⟩
 
 /-- Invariant rule for `foldRange`. -/
 theorem foldRange_inv {σ} (P : Nat → σ → Prop) (f : Nat → σ → σ) (n : Nat) (s : σ)
@@ -656,6 +672,136 @@ theorem cholesky_real {A L : Matrix ℝ} (h : cholesky A = some L) :
     field_simp
     ring
 
+
+/-- the factor under construction agrees with the given factor `m` on the entries written so
+    far and is zero elsewhere -/
+structure CholAgree (n : ℕ) (m : ℕ → ℕ → ℝ) (L : Matrix ℝ) (i j : ℕ) : Prop where
+  shaped : Shaped n n L
+  zero : ∀ a b, a < n → b < n → ¬ CholDone i j a b → get L a b = 0
+  agree : ∀ a b, a < n → CholDone i j a b → get L a b = m a b
+
+theorem cholEntry_complete {n : ℕ} {A L : Matrix ℝ} {m : ℕ → ℕ → ℝ} {i j : ℕ}
+    (hlow : ∀ a b, a < b → m a b = 0) (hpos : ∀ a, a < n → 0 < m a a)
+    (hA : ∀ a b, a < n → b ≤ a → get A a b = ∑ k ∈ range n, m a k * m b k)
+    (hinv : CholAgree n m L i j) (hi : i < n) (hj : j ≤ i) :
+    ∃ L', cholEntry A L i j = some L' ∧ CholAgree n m L' i (j + 1) := by
+  have hjn : j < n := by omega
+  have hS : cholSum L i j = ∑ k ∈ range j, m i k * m j k := by
+    rw [cholSum_eq]
+    apply sum_congr rfl
+    intro k hk
+    have hk := mem_range.mp hk
+    rw [hinv.agree i k hi ⟨by omega, Or.inr ⟨rfl, hk⟩⟩]
+    by_cases hji : j = i
+    · subst hji; rw [hinv.agree j k hi ⟨by omega, Or.inr ⟨rfl, hk⟩⟩]
+    · rw [hinv.agree j k hjn ⟨by omega, Or.inl (by omega)⟩]
+  have hAij : get A i j = ∑ k ∈ range j, m i k * m j k + m i j * m j j := by
+    rw [hA i j hi hj]
+    have : ∑ k ∈ range n, m i k * m j k = ∑ k ∈ range (j + 1), m i k * m j k := by
+      symm
+      apply sum_subset (range_subset_range.mpr (by omega))
+      intro k _ hk'
+      have : ¬ k < j + 1 := fun hh => hk' (mem_range.mpr hh)
+      rw [hlow j k (by omega), mul_zero]
+    rw [this, sum_range_succ]
+  -- the value the step stores is `m i j`
+  have hval : ∃ L', cholEntry A L i j = some L' ∧ L' = set L i j (m i j) := by
+    unfold cholEntry
+    by_cases hij : i = j
+    · subst hij
+      simp only [if_true]
+      have he : get A i i - cholSum L i i = m i i * m i i := by rw [hS, hAij]; ring
+      have hmp := hpos i hi
+      have hnle : ¬ (m i i * m i i ≤ 0) := not_le.mpr (mul_pos hmp hmp)
+      have hb : NumOrd.le (get A i i - cholSum L i i) (0 : ℝ) = false := by
+        rw [he]
+        cases hbb : NumOrd.le (m i i * m i i) (0 : ℝ) with
+        | false => rfl
+        | true => exact absurd ((RealModel.le_eq _ _).mp hbb) hnle
+      rw [hb]
+      simp only [Bool.false_eq_true, if_false]
+      refine ⟨_, rfl, ?_⟩
+      rw [he, RealModel.sqrt_eq, Real.sqrt_mul_self hmp.le]
+    · simp only [hij, if_false]
+      refine ⟨_, rfl, ?_⟩
+      have hjj : get L j j = m j j := hinv.agree j j hjn ⟨le_refl j, Or.inl (by omega)⟩
+      have hne : m j j ≠ 0 := ne_of_gt (hpos j hjn)
+      rw [hS, hAij, hjj]
+      congr 1
+      field_simp
+      ring
+  obtain ⟨L', h1, h2⟩ := hval
+  refine ⟨L', h1, ?_⟩
+  subst h2
+  have hget : ∀ a b, b < n → get (set L i j (m i j)) a b = if a = i ∧ b = j then m i j else get L a b :=
+    fun a b hb => get_set hinv.shaped hi hjn a hb _
+  refine ⟨shaped_set hinv.shaped _ _ _, ?_, ?_⟩
+  · intro a b ha hb hnd
+    rw [hget a b hb, if_neg]
+    · apply hinv.zero a b ha hb
+      rintro ⟨h1, h2⟩; exact hnd ⟨h1, by omega⟩
+    · rintro ⟨rfl, rfl⟩; exact hnd ⟨hj, Or.inr ⟨rfl, Nat.lt_succ_self _⟩⟩
+  · intro a b ha hd
+    obtain ⟨hba, hd'⟩ := hd
+    rw [hget a b (by omega)]
+    by_cases hab : a = i ∧ b = j
+    · obtain ⟨rfl, rfl⟩ := hab; rw [if_pos ⟨rfl, rfl⟩]
+    · rw [if_neg hab]
+      exact hinv.agree a b ha ⟨hba, by omega⟩
+
+theorem cholRow_complete {n : ℕ} {A L : Matrix ℝ} {m : ℕ → ℕ → ℝ} {i : ℕ}
+    (hlow : ∀ a b, a < b → m a b = 0) (hpos : ∀ a, a < n → 0 < m a a)
+    (hA : ∀ a b, a < n → b ≤ a → get A a b = ∑ k ∈ range n, m a k * m b k)
+    (hinv : CholAgree n m L i 0) (hi : i < n) :
+    ∃ L', cholRow A i L = some L' ∧ CholAgree n m L' (i + 1) 0 := by
+  obtain ⟨L', h1, h2⟩ := forRange_progress (fun j L => CholAgree n m L i j)
+    (fun j L => cholEntry A L i j) (i + 1) L hinv
+    (fun k t hk hP => cholEntry_complete hlow hpos hA hP hi (by omega))
+  refine ⟨L', h1, h2.shaped, ?_, ?_⟩
+  · intro a b ha hb hnd
+    apply h2.zero a b ha hb
+    rintro ⟨h3, h4⟩; exact hnd ⟨h3, by omega⟩
+  · intro a b ha hd
+    apply h2.agree a b ha
+    obtain ⟨h3, h4⟩ := hd
+    exact ⟨h3, by omega⟩
+
+/-- **Completeness with an explicit factor**: if `A = M·Mᵀ` on the lower triangle for a lower
+    triangular `M` with positive diagonal, the model returns exactly `M`. -/
+theorem cholesky_complete_aux {A : Matrix ℝ} {m : ℕ → ℕ → ℝ} (hsq : A.rows = A.columns)
+    (hlow : ∀ a b, a < b → m a b = 0) (hpos : ∀ a, a < A.rows → 0 < m a a)
+    (hA : ∀ a b, a < A.rows → b ≤ a → get A a b = ∑ k ∈ range A.rows, m a k * m b k) :
+    ∃ L, cholesky A = some L ∧ Shaped A.rows A.rows L ∧
+      ∀ a b, a < A.rows → b < A.rows → get L a b = m a b := by
+  unfold cholesky
+  rw [if_neg (by simpa using hsq), ← hsq]
+  have h0 : CholAgree A.rows m (fill A.rows A.rows (0 : ℝ)) 0 0 := by
+    refine ⟨shaped_fill _ _ _, fun a b ha hb _ => get_fill _ _ _ _ _ ha hb, ?_⟩
+    rintro a b _ ⟨_, h2⟩; omega
+  obtain ⟨L, h1, h2⟩ := forRange_progress (fun i L => CholAgree A.rows m L i 0)
+    (fun i L => cholRow A i L) A.rows _ h0
+    (fun k t hk hP => cholRow_complete hlow hpos hA hP hk)
+  refine ⟨L, h1, h2.shaped, ?_⟩
+  intro a b ha hb
+  by_cases hba : b ≤ a
+  · exact h2.agree a b ha ⟨hba, Or.inl ha⟩
+  · rw [hlow a b (by omega)]
+    apply h2.zero a b ha hb
+    rintro ⟨h3, _⟩; omega
+
+
+
+/-- a lower-triangular real matrix with positive diagonal gives a positive definite `L·Lᵀ` -/
+theorem posDef_of_lower {n : ℕ} (L : _root_.Matrix (Fin n) (Fin n) ℝ)
+    (hlow : ∀ i j, i < j → L i j = 0) (hpos : ∀ i, 0 < L i i) : (L * L.transpose).PosDef := by
+  have hdet : L.det = ∏ i, L i i := Matrix.det_of_isLowerTriangular L (fun i j hij => hlow i j hij)
+  have hunit : IsUnit L := by
+    rw [Matrix.isUnit_iff_isUnit_det, hdet, isUnit_iff_ne_zero]
+    exact Finset.prod_ne_zero_iff.mpr (fun i _ => ne_of_gt (hpos i))
+  have hinj : Function.Injective L.vecMul := Matrix.vecMul_injective_iff_isUnit.mpr hunit
+  have := Matrix.PosDef.mul_conjTranspose_self L hinj
+  rwa [Matrix.conjTranspose_eq_transpose_of_trivial] at this
+
 end choleskyReal
 
 /-! ### Householder reflections over ℝ -/
@@ -992,6 +1138,162 @@ theorem sumSq_householderU_pos (x : List ℝ) (k : ℕ) (hk : x.getD k 0 ≠ 0) 
       (fun t _ => mul_self_nonneg _) (mem_range.mpr hlen)
   have : 0 < (householderU x).getD 0 0 * (householderU x).getD 0 0 := mul_self_pos.mpr hu0
   linarith
+
+
+theorem householderU_getD_succ (x : List ℝ) (t : ℕ) :
+    (householderU x).getD (t + 1) 0 = x.getD (t + 1) 0 := by
+  unfold householderU
+  simp only []
+  rw [List.getD_eq_getElem?_getD, List.getD_eq_getElem?_getD, List.getElem?_set_ne (by omega)]
+
+theorem householderU_getD_zero (x : List ℝ) (hx : 0 < x.length) :
+    ∃ a : ℝ, a * a = sumSq x ∧ (householderU x).getD 0 0 = x.getD 0 0 + a := by
+  have hnn : 0 ≤ sumSq x := by rw [sumSq_eq]; exact sum_nonneg (fun t _ => mul_self_nonneg _)
+  have hs : Real.sqrt (sumSq x) * Real.sqrt (sumSq x) = sumSq x := Real.mul_self_sqrt hnn
+  have hhead : x.headD 0 = x.getD 0 0 := by
+    cases x with
+    | nil => simp at hx
+    | cons a l => simp
+  unfold householderU euclideanLength
+  simp only [RealModel.sqrt_eq]
+  rw [List.getD_eq_getElem?_getD, List.getElem?_set_self (by simpa using hx)]
+  simp only [Option.getD_some, hhead]
+  by_cases hsg : NumOrd.lt (0 : ℝ) (x.getD 0 0) = true
+  · rw [if_pos hsg]; exact ⟨_, hs, rfl⟩
+  · rw [if_neg hsg]; exact ⟨_, by rw [neg_mul_neg]; exact hs, rfl⟩
+
+/-- the reflection maps its own column to a multiple of `e₀`: every entry below the first
+    becomes zero -/
+theorem householder_annihilates (x : List ℝ) (t : ℕ) (ht : t + 1 < x.length) :
+    x.getD (t + 1) 0 - (householderV x).getD (t + 1) 0 *
+      (∑ k ∈ range x.length, (householderV x).getD k 0 * x.getD k 0) * (1 + 1) = 0 := by
+  obtain ⟨m, hm⟩ : ∃ m, x.length = m + 1 := ⟨x.length - 1, by omega⟩
+  obtain ⟨a, ha, hu0⟩ := householderU_getD_zero x (by omega)
+  set q := sumSq (householderU x) with hq
+  have hqs : q = ∑ k ∈ range x.length, (householderU x).getD k 0 * (householderU x).getD k 0 := by
+    rw [hq, sumSq_eq, householderU_length]
+  have hnn : 0 ≤ q := by rw [hqs]; exact sum_nonneg (fun t _ => mul_self_nonneg _)
+  simp only [householderV_getD]
+  rw [← hq, householderU_getD_succ]
+  by_cases h0 : q = 0
+  · -- `u = 0`: then `x` vanishes below its first entry and `v = 0`
+    have hall := (sum_eq_zero_iff_of_nonneg (fun t _ => mul_self_nonneg _)).mp (hqs ▸ h0)
+    have := hall (t + 1) (mem_range.mpr ht)
+    rw [householderU_getD_succ] at this
+    have hx0 : x.getD (t + 1) 0 = 0 := mul_self_eq_zero.mp this
+    rw [h0, Real.sqrt_zero, hx0]
+    simp
+  · have hs : Real.sqrt q * Real.sqrt q = q := Real.mul_self_sqrt hnn
+    have hsne : Real.sqrt q ≠ 0 := by
+      intro h; rw [h, mul_zero] at hs; exact h0 hs.symm
+    -- u·x = q / 2
+    have hsum : ∑ k ∈ range x.length, (householderU x).getD k 0 / Real.sqrt q * x.getD k 0
+        = (∑ k ∈ range x.length, (householderU x).getD k 0 * x.getD k 0) / Real.sqrt q := by
+      rw [Finset.sum_div]
+      exact sum_congr rfl (fun k _ => by ring)
+    have hX : sumSq x = ∑ k ∈ range m, x.getD (k + 1) 0 * x.getD (k + 1) 0 + x.getD 0 0 * x.getD 0 0 := by
+      rw [sumSq_eq, hm, sum_range_succ']
+    have hq2 : q = ∑ k ∈ range m, x.getD (k + 1) 0 * x.getD (k + 1) 0
+        + (x.getD 0 0 + a) * (x.getD 0 0 + a) := by
+      rw [hqs, hm, sum_range_succ', hu0]
+      congr 1
+      exact sum_congr rfl (fun k _ => by rw [householderU_getD_succ])
+    have hp : ∑ k ∈ range x.length, (householderU x).getD k 0 * x.getD k 0
+        = ∑ k ∈ range m, x.getD (k + 1) 0 * x.getD (k + 1) 0 + (x.getD 0 0 + a) * x.getD 0 0 := by
+      rw [hm, sum_range_succ', hu0]
+      congr 1
+      exact sum_congr rfl (fun k _ => by rw [householderU_getD_succ])
+    have hhalf : ∑ k ∈ range x.length, (householderU x).getD k 0 * x.getD k 0 = q / 2 := by
+      rw [hp, hq2]
+      rw [hX] at ha
+      linarith [ha]
+    have hdiv : q / 2 / Real.sqrt q = Real.sqrt q / 2 := by
+      rw [div_div, div_eq_div_iff (by simpa using hsne) (by norm_num)]
+      linear_combination (-2 : ℝ) * hs
+    rw [hsum, hhalf, hdiv]
+    field_simp
+    ring
+
+
+/-- columns before `c` are already zero below the diagonal -/
+def UpperUpTo (rows cols c : ℕ) (r : Matrix ℝ) : Prop :=
+  Shaped rows cols r ∧ ∀ i j, i < rows → j < cols → j < c → j < i → get r i j = 0
+
+/-- entries of `H·R` for a reflection `H = 1 − 2wwᵀ` -/
+theorem get_reflection_mul {rows cols c : ℕ} {r : Matrix ℝ} (hr : Shaped rows cols r) (hc : c ≤ rows)
+    {i j : ℕ} (hi : i < rows) (hj : j < cols) :
+    get (matMul (reflection rows c r) r) i j
+      = get r i j - reflVec rows c r i * (∑ k ∈ range rows, reflVec rows c r k * get r k j) * (1 + 1) := by
+  rw [get_matMul (shaped_reflection rows c r) hr hi hj]
+  have : ∀ k ∈ range rows, get (reflection rows c r) i k * get r k j
+      = (if i = k then get r k j else 0) - reflVec rows c r i * (reflVec rows c r k * get r k j) * (1 + 1) := by
+    intro k hk
+    rw [get_reflection r hc hi (mem_range.mp hk)]
+    split <;> ring
+  rw [sum_congr rfl this, sum_sub_distrib, sum_ite_eq, if_pos (mem_range.mpr hi), ← sum_mul, ← mul_sum]
+
+theorem reflVec_lt {rows c : ℕ} (r : Matrix ℝ) {i : ℕ} (hi : i < c) : reflVec rows c r i = 0 := by
+  unfold reflVec; rw [if_neg (by omega)]
+
+theorem qrStep_upper {rows cols c : ℕ} {r : Matrix ℝ} (h : UpperUpTo rows cols c r) (hc : c < rows) :
+    UpperUpTo rows cols (c + 1) (matMul (reflection rows c r) r) := by
+  obtain ⟨hr, hz⟩ := h
+  refine ⟨shaped_matMul (shaped_reflection rows c r) hr, ?_⟩
+  intro i j hi hj hjc hji
+  rw [get_reflection_mul hr (le_of_lt hc) hi hj]
+  by_cases hjc' : j < c
+  · -- an earlier column: `w · r_j = 0`, nothing changes
+    have hD : ∑ k ∈ range rows, reflVec rows c r k * get r k j = 0 := by
+      apply sum_eq_zero
+      intro k hk
+      by_cases hkc : k < c
+      · rw [reflVec_lt r hkc, zero_mul]
+      · rw [hz k j (mem_range.mp hk) hj hjc' (by omega), mul_zero]
+    rw [hD, hz i j hi hj hjc' hji]
+    ring
+  · -- column `c` itself
+    have hjc2 : j = c := by omega
+    subst hjc2
+    set x := (List.range (rows - j)).map fun t => get r (j + t) j with hx
+    have hlen : x.length = rows - j := by simp [hx]
+    have hxget : ∀ t, t < rows - j → x.getD t 0 = get r (j + t) j := by
+      intro t ht
+      simp [hx, List.getD_eq_getElem?_getD, ht]
+    have hw : ∀ t, reflVec rows j r (j + t) = (householderV x).getD t 0 := by
+      intro t
+      unfold reflVec
+      rw [if_pos (by omega), Nat.add_sub_cancel_left]
+    obtain ⟨t, ht⟩ : ∃ t, i = j + (t + 1) := ⟨i - j - 1, by omega⟩
+    subst ht
+    have hD : ∑ k ∈ range rows, reflVec rows j r k * get r k j
+        = ∑ k ∈ range x.length, (householderV x).getD k 0 * x.getD k 0 := by
+      have hsplit : rows = j + (rows - j) := by omega
+      rw [hsplit, sum_range_add]
+      have hz0 : ∑ k ∈ range j, reflVec (j + (rows - j)) j r k * get r k j = 0 := by
+        apply sum_eq_zero
+        intro k hk
+        rw [reflVec_lt r (mem_range.mp hk), zero_mul]
+      rw [hz0, zero_add, ← hsplit, hlen]
+      apply sum_congr rfl
+      intro k hk
+      rw [hw k, hxget k (mem_range.mp hk)]
+    rw [hD, hw (t + 1), ← hxget (t + 1) (by omega)]
+    exact householder_annihilates x t (by omega)
+
+theorem qrLoop_upper (A : Matrix ℝ) (hw : A.columns ≤ A.rows) :
+    UpperUpTo A.rows A.columns (min (A.rows - 1) A.columns) (qrLoop A).2 := by
+  unfold qrLoop
+  have h0 : UpperUpTo A.rows A.columns 0 (ofFn A.rows A.columns (get A)) :=
+    ⟨shaped_ofFn _ _ _, fun i j _ _ hj _ => by omega⟩
+  have := foldRange_inv (fun c s => UpperUpTo A.rows A.columns c s.2)
+    (fun c s => qrStep A.rows c s) (min (A.rows - 1) A.columns) (none, ofFn A.rows A.columns (get A)) h0
+    (fun k t hk hP => by
+      have hR' : (qrStep A.rows k t).2 = matMul (reflection A.rows k t.2) t.2 := by
+        obtain ⟨q, r⟩ := t
+        cases q <;> rfl
+      rw [hR']
+      exact qrStep_upper hP (by omega))
+  exact this
 
 end qr
 
